@@ -102,8 +102,9 @@ Theorem C01_tables_opcode_cover_db :
 Proof. exact opcode_cover_ok. Qed.
 Print Assumptions C01_tables_opcode_cover_db.
 
-(* (2b) derived opcodes, class by class: far call / jmp (lcall, ljmp) and pextrb/pextrd/pextrq/extractps, whose handlers add the
-   operand-size prefix 66 themselves: some database form agrees with the main or alternative word AND every database form of the
+(* (2b) derived opcodes, class by class: far call / jmp (lcall, ljmp), pextrb/pextrd/pextrq/extractps, and (round 4) X86M_NoMemSize,
+   X86Rm, ExtRm_P, ExtRmRi_P, ExtRmi_P, ExtPextrw, ExtMovd (corpus/C01_size66_classes.txt: 9 classes), whose handlers add the
+   operand-size prefix 66 themselves (add_prefix_by_size / add_66h_if): some database form agrees with the main or alternative word AND every database form of the
    mnemonic is encoded by one of them, where a word without mandatory prefix also stands for the rows with prefix 66.
    (mov, movabs and pushw have no opcode in the table at all -- their handler hard-codes it; only the per-call judge covers them) *)
 Theorem C01_tables_opcode_size66_agree_db :
@@ -125,9 +126,19 @@ Print Assumptions C01_tables_fpu_op_agree_db_partial.
    hard-coded in the handler).  Exceptions: corpus/C01_fpu_exceptions.txt *)
 Theorem C01_tables_fpu_derived_agree_db :
   forallb (fun p => negb (zmem (ie_enc (fst p)) fpu_derived_classes) || zmem (ie_name (fst p)) fpu_exceptions ||
-                    fpu_derived_agrees (snd p) (fst p)) inst_table = true.
+                    fpu_derived_agrees hl_fldfst (snd p) (fst p)) inst_table = true.
 Proof. exact fpu_derived_agree_ok. Qed.
 Print Assumptions C01_tables_fpu_derived_agree_db.
+
+(* (3c) round 4: the handlers whose opcodes are NOT in the tables.  The opcode literals of the mov, movabs and pushw handler blocks and the
+   register forms of fld / fst / fstp (FpuFldFst, now part of (3b): every row, not only the memory rows) are read from the source text
+   of x86assembler.cpp on every run; every literal is the opcode of a database form of the mnemonic and every database form of the
+   mnemonic has a literal (or literal + 1, the size bit) as opcode; pushw: the 66 prefix and opcode of its only form *)
+Theorem C01_handler_literals_agree_db :
+  inst_has inst_table id_mov (handler_lits_agree id_mov hl_mov) && inst_has inst_table id_movabs (handler_lits_agree id_movabs hl_movabs) &&
+  inst_has inst_table id_pushw (pushw_lits_agree id_pushw hl_pushw) && (Z.of_nat (length hl_fldfst) =? 3) = true.
+Proof. exact handler_lits_ok. Qed.
+Print Assumptions C01_handler_literals_agree_db.
 
 (* every denotation is backed by the structural decoder, a database row of the opcode and the inverse operand map *)
 Theorem C01_denote_sound : forall m bs rid ops dd len,
@@ -142,27 +153,24 @@ Print Assumptions C01_denote_sound.
 
 (* what the verdict 0 of the judge (run on every accepted call of the harness) means *)
 Theorem C01_judge_ok_spec : forall m name ops dc bs,
-  fst (judge bucket row_of m name ops dc bs) = 0 ->
+  fst (judge bucket wbucket row_of m name ops dc bs) = 0 ->
   exists rid dops dd r,
-    In (rid, dops, dd, length bs) (denote bucket m bs) /\ row_of rid = Some r /\ r_name r = name /\
+    In (rid, dops, dd, length bs) (denote2 bucket wbucket m bs) /\ row_of rid = Some r /\ r_name r = name /\
     deco_match dc dd = true /\
     (ops_match m (r_ops r) (op_bits (r_ops r)) ops dops = true \/
      ops_match m (explicit_specs (r_ops r)) (op_bits (r_ops r)) ops (explicit_only (r_ops r) dops) = true).
-Proof. exact (judge_ok_spec bucket row_of). Qed.
+Proof. exact (judge_ok_spec bucket wbucket row_of). Qed.
 Print Assumptions C01_judge_ok_spec.
 
 (* the judge's comparison of prefixes and decorations, in terms of the BYTES: verdict 0 means the call's lock prefix, opmask
    register and zeroing bit are those of the decoded head of the appended bytes, and its rep/repne, free-standing segment prefix
    and rounding / sae are the head's as read by a database row of the CALLED mnemonic in the head's opcode bucket (F2 / F3 that the
-   row consumes as its mandatory prefix are not decorations) *)
+   row consumes as its mandatory prefix are not decorations) -- `head_reading` of X86JudgeProofs.v; for an x87 wait form the same
+   holds for the bytes that follow the leading FWAIT (9B), read by a row of the wait buckets *)
 Theorem C01_judge_ok_head : forall m name ops dc bs,
-  fst (judge bucket row_of m name ops dc bs) = 0 ->
-  exists h rest r isreg,
-    sdec_head m bs = Some (h, rest) /\ In r (bucket (rh_opc h)) /\ r_name r = name /\
-    d_lock dc = p_lock (rh_pfx h) /\ d_k dc = rh_aaa h /\ d_z dc = rh_z h /\
-    d_f2 dc = d_f2 (head_deco r h isreg) /\ d_f3 dc = d_f3 (head_deco r h isreg) /\
-    d_seg dc = d_seg (head_deco r h isreg) /\ d_rc dc = d_rc (head_deco r h isreg).
-Proof. exact (judge_ok_head bucket row_of db_bucket_row_of). Qed.
+  fst (judge bucket wbucket row_of m name ops dc bs) = 0 ->
+  head_reading bucket m name dc bs \/ exists rest, bs = 155 :: rest /\ head_reading wbucket m name dc rest.
+Proof. exact (judge_ok_head bucket wbucket row_of db_bucket_row_of db_wait_bucket_row_of). Qed.
 Print Assumptions C01_judge_ok_head.
 
 (* ... and they do not depend on the row: ANY two denotations of the same bytes carry the same lock / opmask / zeroing *)
@@ -172,6 +180,74 @@ Theorem C01_deco_rows_agree : forall m bs rid1 ops1 dd1 len1 rid2 ops2 dd2 len2,
 Proof. exact (deco_rows_agree bucket). Qed.
 Print Assumptions C01_deco_rows_agree.
 
+(* the two-instruction reading of the x87 wait forms inside the model (round 4): the denotation the judge uses, `denote2`, is the
+   one-instruction denotation of the bytes plus -- when they start with FWAIT (9B) -- the denotations of the REST by the rows of the
+   wait buckets (fstsw, fstcw, fstenv, fsave, fclex, finit), one byte longer; nothing else *)
+Theorem C01_denote2_cases : forall m bs rid ops dd len,
+  In (rid, ops, dd, len) (denote2 bucket wbucket m bs) ->
+  In (rid, ops, dd, len) (denote bucket m bs) \/
+  exists rest len', bs = 155 :: rest /\ len = S len' /\ In (rid, ops, dd, len') (denote wbucket m rest).
+Proof. exact (denote2_cases bucket wbucket). Qed.
+Print Assumptions C01_denote2_cases.
+
+(* containment for the wait forms: FWAIT followed by the structural encoding of a wait row (any encoder choice, any following bytes)
+   denotes that row with exactly the emitted length + 1 -- so the override prefixes of the memory operand stand AFTER the 9B *)
+Theorem C01_denote2_senc_wait : forall m r s c rest ops,
+  let sh := shape_of_row m r (rhead_of s) in
+  wf m sh s = true -> adm m sh s c = true -> In r (wbucket (s_opc s)) ->
+  head_ok m r (rhead_of s) = true -> tail_ok m r s = true -> mk_operands m r s (r_ops r) = Some ops ->
+  In (r_id r, rel_from_start (r_ops r) ops (Z.of_nat (length (senc m sh s c))), deco_of r s, S (length (senc m sh s c)))
+     (denote2 bucket wbucket m (155 :: senc m sh s c ++ rest)).
+Proof.
+  intros m r s c rest ops sh Hwf Hadm Hb Hh Ht Ho.
+  exact (denote2_wait bucket wbucket m _ _ _ _ _ (denote_senc wbucket m r s c rest ops Hwf Hadm Hb Hh Ht Ho)).
+Qed.
+Print Assumptions C01_denote2_senc_wait.
+
+(* the wait buckets pass the same reflection checks as the ordinary ones: well-formed rows, complete and sound indexing, uniqueness
+   of the mnemonic, the row found by id reads like the bucket's row *)
+Theorem C01_db_wait_buckets :
+  forallb row_wf db_wait_rows = true /\
+  forallb (fun r => existsb (fun r' => r_id r' =? r_id r) (wbucket (r_opc r))) db_wait_rows = true /\
+  forallb (fun o => forallb (fun r => bucket_row_ok o r && existsb (fun r' => r_id r' =? r_id r) db_wait_rows) (wbucket o)) zrange256 = true /\
+  forallb (fun o => bucket_unique db_aliases (wbucket_raw o)) (zrange 256) = true /\
+  forallb (fun o => bucket_row_of_ok row_of (wbucket_raw o)) (zrange 256) = true.
+Proof. exact (conj db_wait_wf (conj db_wait_bucket_ok (conj db_wait_bucket_sound (conj db_wait_unique_raw db_wait_bucket_row_of_raw)))). Qed.
+Print Assumptions C01_db_wait_buckets.
+
+(* any two WAIT readings of the same bytes name the same mnemonic (up to the alias list), like the one-instruction readings *)
+Theorem C01_denote_unique_wait : forall m bs rid1 ops1 dd1 len1 rid2 ops2 dd2 len2,
+  In (rid1, ops1, dd1, len1) (denote wbucket m bs) -> In (rid2, ops2, dd2, len2) (denote wbucket m bs) ->
+  exists r1 r2 h, In r1 (wbucket (rh_opc h)) /\ In r2 (wbucket (rh_opc h)) /\ r_id r1 = rid1 /\ r_id r2 = rid2 /\
+                  may_overlap r1 r2 = true /\ alias_ok db_aliases (r_name r1) (r_name r2) = true.
+Proof. exact (denote_unique_names wbucket db_aliases db_wait_unique). Qed.
+Print Assumptions C01_denote_unique_wait.
+
+(* the two readings of bytes that start with 9B are separated: the one-instruction reading is FWAIT itself -- the legacy map-0 row of bucket 9B, which names fwait and has neither ModRM nor
+   immediate -- and is ONE byte long; every wait reading is a byte longer than a denotation
+   of the rest.  So the full-length reading of an accepted wait-form call is never the FWAIT reading *)
+Theorem C01_fwait_reading : forall m rest rid ops dd len,
+  In (rid, ops, dd, len) (denote bucket m (155 :: rest)) ->
+  exists r, In r (bucket 155) /\ r_id r = rid /\ r_name r = id_fwait /\ len = 1%nat.
+Proof.
+  intros m rest rid ops dd len H.
+  destruct (denote_9b_is_bucket_9b bucket m rest rid ops dd len H) as [r [I [Id [Hm [Hk Hl]]]]].
+  pose proof db_bucket_9b as HB. rewrite forallb_forall in HB. specialize (HB r I).
+  rewrite Hm, Hk in HB. cbn in HB. apply andb_prop in HB. destruct HB as [Hn Hp]. apply Z.eqb_eq in Hn.
+  exists r. repeat split; auto.
+Qed.
+Print Assumptions C01_fwait_reading.
+
+(* witnesses: fstsw [eax] = 9B DD 38; an override prefix before the 9B is FWAIT's (the defect repaired by bed3c82), after it the operand's *)
+Theorem C01_example_fstsw_wait : fst (judge bucket wbucket row_of M32 id_fstsw [OMem 2 0 3 0 0 0 0 0 0] (mkD false false false 0 0 false (-1)) [155; 221; 56]) = 0.
+Proof. exact ex_fstsw_wait. Qed.
+Print Assumptions C01_example_fstsw_wait.
+Theorem C01_fstsw_prefix_before_fwait_refuted :
+  fst (judge bucket wbucket row_of M32 id_fstsw [OMem 2 1 3 0 0 0 0 0 0] (mkD false false false 0 0 false (-1)) [38; 155; 221; 56]) = 2 /\
+  fst (judge bucket wbucket row_of M32 id_fstsw [OMem 2 1 3 0 0 0 0 0 0] (mkD false false false 0 0 false (-1)) [155; 38; 221; 56]) = 0.
+Proof. exact ex_fstsw_wait_prefix_order. Qed.
+Print Assumptions C01_fstsw_prefix_before_fwait_refuted.
+
 (* the row the judge finds by id (row_of) reads mnemonic and decorations exactly like the opcode bucket's row of that id *)
 Theorem C01_db_bucket_row_of : forallb (fun o => bucket_row_of_ok row_of (bucket_raw o)) (zrange 256) = true.
 Proof. exact db_bucket_row_of_raw. Qed.
@@ -180,9 +256,9 @@ Print Assumptions C01_db_bucket_row_of.
 (* the uniqueness side, judged per call: the list the judge reports next to the verdict is exactly the set of OTHER mnemonics
    the same bytes denote in full (the check accepts only reviewed aliases, corpus/C01_db_alias.txt) *)
 Theorem C01_other_names_spec : forall m name bs rid,
-  In rid (other_names bucket row_of m name bs) <->
-  exists ops dd r, In (rid, ops, dd, length bs) (denote bucket m bs) /\ row_of rid = Some r /\ r_name r <> name.
-Proof. exact (other_names_spec bucket row_of). Qed.
+  In rid (other_names bucket wbucket row_of m name bs) <->
+  exists ops dd r, In (rid, ops, dd, length bs) (denote2 bucket wbucket m bs) /\ row_of rid = Some r /\ r_name r <> name.
+Proof. exact (other_names_spec bucket wbucket row_of). Qed.
 Print Assumptions C01_other_names_spec.
 
 (* C01_denote_unique of the design, in two theorems.  (1) containment: the structural encoding (any admissible encoder choice, any
@@ -208,40 +284,58 @@ Theorem C01_denote_unique : forall m bs rid1 ops1 dd1 len1 rid2 ops2 dd2 len2,
 Proof. exact (denote_unique_names bucket db_aliases db_unique). Qed.
 Print Assumptions C01_denote_unique.
 
+(* (3) operands (round 4): with the sharper overlap relation (EVEX vector length, address-size prefix) two denotations of the same bytes
+   by rows of the SAME mnemonic come from rows with EQUAL operand specifications -- the operands are read from the same fields in the same
+   way -- unless the mnemonic is one of the 16 reviewed ones of corpus/C01_same_ops_exceptions.txt (true second readings: implied st(1),
+   commutative xchg, nop /0 inside /r; and three database findings) *)
+Theorem C01_denote_unique_ops : forall m bs rid1 ops1 dd1 len1 rid2 ops2 dd2 len2,
+  In (rid1, ops1, dd1, len1) (denote bucket m bs) -> In (rid2, ops2, dd2, len2) (denote bucket m bs) ->
+  exists r1 r2 h, In r1 (bucket (rh_opc h)) /\ In r2 (bucket (rh_opc h)) /\ r_id r1 = rid1 /\ r_id r2 = rid2 /\
+                  extra_overlap r1 r2 = true /\
+                  (r_name r1 = r_name r2 -> existsb (Z.eqb (r_name r1)) db_same_ops_exceptions = false -> r_ops r1 = r_ops r2).
+Proof. exact (denote_unique_ops bucket db_same_ops_exceptions db_same_ops). Qed.
+Print Assumptions C01_denote_unique_ops.
+
+Theorem C01_db_same_ops :
+  forallb (fun o => bucket_same_ops db_same_ops_exceptions (bucket_raw o)) (zrange 256) = true /\
+  forallb (fun o => bucket_same_ops db_same_ops_exceptions (wbucket_raw o)) (zrange 256) = true.
+Proof. exact (conj db_same_ops_raw db_wait_same_ops_raw). Qed.
+Print Assumptions C01_db_same_ops.
+
 Theorem C01_db_unique : forallb (fun o => bucket_unique db_aliases (bucket_raw o)) (zrange 256) = true.
 Proof. exact db_unique_raw. Qed.
 Print Assumptions C01_db_unique.
 
 (* witnesses on the regenerated database: accepted encodings are mapped back to their call ... *)
-Theorem C01_example_add_rax_rcx : fst (judge bucket row_of M64 id_add [OReg 4 0; OReg 4 1] (mkD false false false 0 0 false (-1)) [72; 1; 200]) = 0.
+Theorem C01_example_add_rax_rcx : fst (judge bucket wbucket row_of M64 id_add [OReg 4 0; OReg 4 1] (mkD false false false 0 0 false (-1)) [72; 1; 200]) = 0.
 Proof. exact ex_add_rax_rcx. Qed.
 Print Assumptions C01_example_add_rax_rcx.
 
 (* ... and the encodings of the defects found in the pinned tree are not (DESIGN 7.17, 7.2, REX order, mov ah/moffs; repaired by fixes/C01-*.patch) *)
 Theorem C01_mod16_bp_pinned_refuted : denote bucket M32 [103; 139; 14] = [] /\
-  fst (judge bucket row_of M32 id_mov [OReg 3 1; OMem 4 0 2 5 0 0 0 0 0] (mkD false false false 0 0 false (-1)) [103; 139; 14; 144; 144]) = 2.
+  fst (judge bucket wbucket row_of M32 id_mov [OReg 3 1; OMem 4 0 2 5 0 0 0 0 0] (mkD false false false 0 0 false (-1)) [103; 139; 14; 144; 144]) = 2.
 Proof. exact ex_mov_ecx_bp_pinned_refuted. Qed.
 Print Assumptions C01_mod16_bp_pinned_refuted.
 
 Theorem C01_kreg_id_pinned_refuted :
-  fst (judge bucket row_of M64 id_vaddps [OReg 8 1; OReg 8 2; OReg 8 3] (mkD false false false 0 9 false (-1)) [98; 241; 108; 65; 88; 203]) = 2.
+  fst (judge bucket wbucket row_of M64 id_vaddps [OReg 8 1; OReg 8 2; OReg 8 3] (mkD false false false 0 9 false (-1)) [98; 241; 108; 65; 88; 203]) = 2.
 Proof. exact ex_vaddps_k9_refuted. Qed.
 Print Assumptions C01_kreg_id_pinned_refuted.
 
 Theorem C01_rex_order_pinned_refuted : denote bucket M64 [72; 54; 103; 173] = [] /\
-  fst (judge bucket row_of M64 id_lods [OReg 4 0; OMem 8 3 3 6 0 0 0 0 0] (mkD false false false 0 0 false (-1)) [54; 103; 72; 173]) = 0.
+  fst (judge bucket wbucket row_of M64 id_lods [OReg 4 0; OMem 8 3 3 6 0 0 0 0 0] (mkD false false false 0 0 false (-1)) [54; 103; 72; 173]) = 0.
 Proof. exact ex_rex_order_refuted. Qed.
 Print Assumptions C01_rex_order_pinned_refuted.
 
 Theorem C01_mov_ah_moffs_pinned_refuted :
-  fst (judge bucket row_of M32 id_mov [OMem 1 0 0 0 0 0 0 4096 0; OReg 16 0] (mkD false false false 0 0 false (-1)) [162; 0; 16; 0; 0]) = 2 /\
-  fst (judge bucket row_of M32 id_mov [OMem 1 0 0 0 0 0 0 4096 0; OReg 1 0] (mkD false false false 0 0 false (-1)) [162; 0; 16; 0; 0]) = 0.
+  fst (judge bucket wbucket row_of M32 id_mov [OMem 1 0 0 0 0 0 0 4096 0; OReg 16 0] (mkD false false false 0 0 false (-1)) [162; 0; 16; 0; 0]) = 2 /\
+  fst (judge bucket wbucket row_of M32 id_mov [OMem 1 0 0 0 0 0 0 4096 0; OReg 1 0] (mkD false false false 0 0 false (-1)) [162; 0; 16; 0; 0]) = 0.
 Proof. exact ex_mov_ah_moffs_refuted. Qed.
 Print Assumptions C01_mov_ah_moffs_pinned_refuted.
 
 (* known finding: EVEX + 16-bit addressing, disp8 emitted unscaled *)
 Theorem C01_evex_addr16_disp8_refuted :
-  fst (judge bucket row_of M32 id_vpabsq [OReg 6 0; OMem 16 0 2 3 2 6 0 1 0] (mkD false false false 0 0 false (-1)) [103; 98; 242; 253; 8; 31; 64; 1]) = 2 /\
-  fst (judge bucket row_of M32 id_vpabsq [OReg 6 0; OMem 16 0 2 3 2 6 0 16 0] (mkD false false false 0 0 false (-1)) [103; 98; 242; 253; 8; 31; 64; 1]) = 0.
+  fst (judge bucket wbucket row_of M32 id_vpabsq [OReg 6 0; OMem 16 0 2 3 2 6 0 1 0] (mkD false false false 0 0 false (-1)) [103; 98; 242; 253; 8; 31; 64; 1]) = 2 /\
+  fst (judge bucket wbucket row_of M32 id_vpabsq [OReg 6 0; OMem 16 0 2 3 2 6 0 16 0] (mkD false false false 0 0 false (-1)) [103; 98; 242; 253; 8; 31; 64; 1]) = 0.
 Proof. exact ex_evex_a16_disp8_refuted. Qed.
 Print Assumptions C01_evex_addr16_disp8_refuted.
